@@ -1102,6 +1102,15 @@ impl<'a> RepositoryUpdate<'a> {
             }
         }
 
+        // The deltas get applied one after the other, so there must not be
+        // a gap between them.
+        if deltas.windows(2).any(|pair| {
+            pair[0].serial().checked_add(1) != Some(pair[1].serial())
+        }) {
+            self.log.debug(format_args!("Gap in the delta list."));
+            return Err(SnapshotReason::BadDeltaSet)
+        }
+
         if deltas.len() > self.collector.config.max_delta_count {
             self.log.debug(format_args!(
                 "Too many delta steps required ({})", deltas.len()
